@@ -162,7 +162,7 @@ func genC07(tier string, seed int64) (*Family, error) {
 	fam := &Family{
 		Prop: "C07", Files: map[string]string{},
 		Bounds: map[string]interface{}{"pool": "(1,2): one initial and one additional instance", "updates_per_scenario": "1 (thorough: 2 in sequence)", "update_kinds": "full (same names / other names), incremental (replace / add), removal, clear", "models": len(c07Models()), "where_the_update_lands": "inside the highest-priority rule of the running execution (same thread, or another thread while that rule is held)"},
-		Cfg: interp.Config{MaxSteps: 8_000_000},
+		Cfg:    interp.Config{MaxSteps: 8_000_000},
 		Functions: []string{"engine.GenginePool).UpdatePooledRules", "engine.GenginePool).UpdatePooledRulesIncremental", "engine.GenginePool).RemoveRules", "engine.GenginePool).ClearPoolRules",
 			"engine.updateIncremental", "engine.GenginePool).prepareWithMultiInput"},
 	}
@@ -360,7 +360,7 @@ func zzRunOn(gp *GenginePool, which int) (error, map[string]interface{}) {
 
 func genC19(tier string, seed int64) (*Family, error) {
 	fam := &Family{
-		Prop: "C19", Files: map[string]string{},
+		Prop: "C19", BothOrders: true, Files: map[string]string{},
 		Bounds: map[string]interface{}{"goroutines": "<= 3 client goroutines plus those gengine starts", "scenarios": "every concurrent engine model, conc blocks, two pool requests, pool request with each management operation, get/put pairs"},
 		Cfg: interp.Config{MaxSteps: 8_000_000,
 			TrackFields: []string{"engine.Gengine.returnResult", "engine.GenginePool.freeGengines", "engine.GenginePool.additionGengines", "engine.GenginePool.ruleBuilder", "engine.GenginePool.execModel", "engine.GenginePool.clear",
